@@ -98,7 +98,7 @@ struct rec { char fn[64]; uint32_t line, tags; uint8_t prio; char text[600]; lon
  * one can be compared exactly instead of against the harness' own clock readings */
 static struct timespec cap_ts; static int cap_seen;
 static void caplogger(int32_t t, struct qb_log_callsite *cs, struct timespec *ts, const char *msg) { (void)t; (void)cs; (void)msg; cap_ts = *ts; cap_seen = 1; }
-static long n_ts_exact, n_ts_unjudged, n_empty_msgs;
+static long n_ts_exact, n_ts_unjudged, n_empty_msgs, n_longline_cases; static int long_limit;
 #define MAXREC 6000
 static struct rec R[MAXREC]; static int nR;
 static const char *PRIO[] = { "emerg", "alert", "crit", "error", "warning", "notice", "info", "debug", "trace" };
@@ -118,6 +118,7 @@ static void log_one(vprng_t *r)
 	x->tags = (hh >> 20) % 2 ? 0 : 1 + (uint32_t)((hh >> 24) % 100000); x->prio = (uint8_t)vp_u(r, 9);
 	static char s1[1200]; int sl;
 	switch (vp_u(r, 8)) { case 0: sl = 0; break; case 1: sl = 400 + (int)vp_u(r, 700); break; default: sl = (int)vp_u(r, 60); }
+	if (long_limit && vp_chance(r, 1, 3)) { sl = 500 + (int)vp_u(r, (uint32_t)(long_limit > 1150 ? 600 : long_limit - 540)); if (sl > 1100) sl = 1100; }
 	for (int i = 0; i < sl; i++) s1[i] = (char)('A' + vp_u(r, 50)); s1[sl] = 0;
 	for (int i = 0; i < sl; i++) if (s1[i] == '%' || s1[i] == '\\') s1[i] = '_';
 	int num = (int)vp_u(r, 2000000) - 1000000; unsigned long long big = vp_next(r);
@@ -153,6 +154,11 @@ static void roundtrip_case(long kase)
 	/* only the harness' own call sites: libqb traces itself (qb_enter) and a forked printer shares the ring mapping */
 	qb_log_filter_ctl(QB_LOG_BLACKBOX, QB_LOG_FILTER_ADD, QB_LOG_FILTER_FILE, "bb.c", LOG_TRACE);
 	qb_log_ctl(QB_LOG_BLACKBOX, QB_LOG_CONF_SIZE, size);
+	/* a fifth of the cases raise the blackbox's own line limit and log records longer than the default 512 bytes: the space
+	 * reserved per record has to follow the limit.  The printer cannot show records above 512 bytes (it says so and stops),
+	 * so these cases are judged on the recorder only: every dump must succeed, and printing must not crash */
+	long_limit = vp_chance(&r, 1, 5) ? 600 + (int)vp_u(&r, 3400) : 0;
+	if (long_limit) { n_longline_cases++; if (qb_log_ctl(QB_LOG_BLACKBOX, QB_LOG_CONF_MAX_LINE_LEN, long_limit) != 0) long_limit = 0; }
 	int rc = qb_log_ctl(QB_LOG_BLACKBOX, QB_LOG_CONF_ENABLED, QB_TRUE);
 	if (rc != 0) { vp_violation("bb:enable-failed", "size %d rc %d", size, rc); qb_log_fini(); return; }
 	int cap = qb_log_custom_open(caplogger, NULL, NULL, NULL);
@@ -169,6 +175,7 @@ static void roundtrip_case(long kase)
 		ssize_t w = qb_log_blackbox_write_to_file(path);
 		if (w <= 0) { vp_violation("bb:write-to-file-failed", "returned %zd after %d records (size %d)", w, nR, size); break; }
 		n_dumps++;
+		if (long_limit) { int st0 = print_in_child(path, out, err); if (!WIFEXITED(st0) || WEXITSTATUS(st0) > 3) { char key[200], det[1000]; classify_crash(st0, err, "valid-dump-long-lines", key, sizeof key, det, sizeof det); vp_violation(key, "%s", det); break; } continue; }
 		int st = print_in_child(path, out, err);
 		if (!WIFEXITED(st) || WEXITSTATUS(st) > 3) {
 			char key[200], det[1000]; classify_crash(st, err, "valid-dump", key, sizeof key, det, sizeof det);
@@ -371,7 +378,7 @@ int main(int argc, char **argv)
 	vp_count("records_logged", n_logged); vp_count("dumps_written_and_printed", n_dumps); vp_count("records_printed_and_compared", n_printed_records);
 	vp_count("dumps_that_had_wrapped", n_wrapped_dumps); vp_count("files_printed", n_files); vp_count("print_returned_ok", n_rc_ok); vp_count("print_returned_error", n_rc_err);
 	vp_count("truncations", n_truncs); vp_count("field_corruptions", n_field); vp_count("random_corruptions", n_random); vp_count("non_dumps", n_arbitrary);
-	vp_count("records_with_an_empty_message", n_empty_msgs); vp_count("timestamps_compared_exactly", n_ts_exact); vp_count("timestamps_not_judged", n_ts_unjudged);
+	vp_count("cases_with_a_raised_blackbox_line_limit", n_longline_cases); vp_count("records_with_an_empty_message", n_empty_msgs); vp_count("timestamps_compared_exactly", n_ts_exact); vp_count("timestamps_not_judged", n_ts_unjudged);
 	vp_count("private_dev_shm", private_shm);
 	vp_finish();
 	return 0;
